@@ -7,7 +7,7 @@ K = range(9)
 
 def run(tier):
     obs = [
-        Obligation('seq2', 'harness/c03.py', 'h_seq2', partitions=[[a, b] for a in K for b in K], timeout=500,
+        Obligation('seq2', 'harness/c03.py', 'h_seq2', partitions=[[a, b] for a in K for b in K], timeout=(500 if tier == 'quick' else 1200),
                    what='every valid sequence of two mutations: the optimised list simulates without failure to the same final signature (serialize + Diff both ways) as one-at-a-time application; the mutation objects are unchanged; a second optimiser pass over the same objects gives the same result',
                    bounds='9 kinds (AddField, ChangeField max_length, ChangeField null=False+initial, DeleteField, RenameField, ChangeMeta unique_together, RenameModel, DeleteModel, SQLMutation barrier) x 2 models x 2 fields x new names g,h,i / A..D (with reuse); max_length 1..255, initial any int, null flag symbolic',
                    functions=F),
